@@ -107,12 +107,16 @@ fn base_db(cp: u32, text: &[String]) -> EncDb {
         streams: vec![("Binary.one".into(), vec![1, 2, 3]), ("big".into(), (0..5000u32).map(|i| (i % 251) as u8).collect())],
         summary: default_summary(),
         extra_pool_strings: vec![],
+        ghost_strings: vec![],
     }
 }
 
 fn pool_shapes() -> Vec<(&'static str, PoolStyle, bool)> {
     vec![
         ("dense", PoolStyle::Dense, false),
+        // unused entries that still carry text (one of them the text that the
+        // modification alphabet inserts): name "ghosts" is matched below
+        ("ghosts", PoolStyle::Holes, false),
         ("holes", PoolStyle::Holes, false),
         ("duplicates", PoolStyle::Duplicates, false),
         ("overcounted", PoolStyle::OverCounted, false),
@@ -138,6 +142,9 @@ fn cases(tier: Tier) -> Vec<FileCase> {
                     for so in [48u32, 64] {
                         let mut db = base_db(*cp, &text);
                         db.pool_style = style;
+                        if pname == "ghosts" {
+                            db.ghost_strings = vec![format!("{}z", text[0]), "ghost".into(), text[1].clone()];
+                        }
                         if long {
                             let big = format!("{}{}", text[1], "x".repeat(70000));
                             // referenced twice (count 2, high word of the length 1)
@@ -202,6 +209,9 @@ fn cases(tier: Tier) -> Vec<FileCase> {
                             db.tables = tables.clone();
                             db.long_refs = long_refs;
                             db.pool_style = style;
+                            if pname == "ghosts" {
+                                db.ghost_strings = vec![format!("{}z", text[0]), "ghost".into(), text[1].clone()];
+                            }
                             db.row_order = order;
                             db.with_validation = val;
                             db.ptype = ptype;
@@ -320,6 +330,10 @@ fn check_file(c: &FileCase, depth: usize) -> (u64, Vec<V>) {
     let ri = ops.iter().position(|o| matches!(o, Op::Reopen)).unwrap();
     seqs.push(vec![ci, ii]);
     seqs.push(vec![ci, ri, ii]);
+    // a row whose text an unused entry of the file may still carry, followed
+    // by operations that need fresh pool entries
+    seqs.push(vec![0, ci, ii]);
+    seqs.push(vec![0, ri, ci, ii]);
     if depth >= 2 {
         for i in 0..ops.len() {
             for j in 0..ops.len() {
@@ -510,7 +524,7 @@ pub fn run(tier: Tier) -> i32 {
     rep.set("structure_group_files", cs.len() as u64 - text_n);
     rep.set("modification_depth", depth);
     rep.set("exhaustive", true);
-    rep.set("rule", "text group: 27 code-page ids (0 and the 26 supported) x 5 pool shapes (dense, holes, duplicates, over-counted, > 64 KiB string) x 12 property-set layouts (3 orders x 2 paddings x 2 section offsets), strings from each page's repertoire; structure group: 2 reference widths x 5 pool shapes x every column list of length 1..2 (thorough 1..3) over {int16, int16 stored with width byte 1, int32, string} with the key in every position, a 32-column table with a composite key, an empty table x 3 row orders x with/without _Validation x package type. Each file: open + full observation == abstract database; then every sequence of length <= depth over 10 modifying operations, compared with the model, saved, decoded by the independent decoder, reopened. distinct_nontrivial = generated files");
+    rep.set("rule", "text group: 27 code-page ids (0 and the 26 supported) x 8 pool shapes (dense, unused entries that still carry text, holes, duplicates, over-counted, > 64 KiB strings dense / over-counted / with holes) x 12 property-set layouts (3 orders x 2 paddings x 2 section offsets), strings from each page's repertoire; structure group: 2 reference widths x 8 pool shapes x every column list of length 1..2 (thorough 1..3) over {int16, int16 stored with width byte 1, int32, string} with the key in every position, a 32-column table with a composite key, an empty table x 3 row orders x with/without _Validation x package type. Each file: open + full observation == abstract database; then every sequence of length <= depth over 10 modifying operations, compared with the model, saved, decoded by the independent decoder, reopened. distinct_nontrivial = generated files");
     rep.sample(json!({"label": cs[0].label}));
     rep.sample(json!({"label": cs[cs.len() - 1].label}));
     rep.finish()
